@@ -59,6 +59,7 @@ def check_input(acc, root, m, cc, enc, d):
                 fp["requested"] = ctx["requested"]
                 fp["area_can_encrypt"] = ctx["area_can_encrypt"]
                 fp["failed_response"] = ctx["failed_response"]
+                fp["prev_command_abandoned_early"] = ctx["prev_command_abandoned_early"]
                 # a problem reported inside the message that is being decoded (its session area may have been abandoned)
                 last_root = max((i for i, e in enumerate(w.events) if e[0] == "E" and e[1] == "" and e[3] == "..."), default=0)
                 fp["warned_in_message"] = any(e[0] == "W" for e in w.events[last_root:])
